@@ -312,20 +312,23 @@ Theorem exec_ns_positioner_total : forall th f s g,
 Proof.
   intros th f s g W Hc Hne Hbud. rewrite exec_ns_positioner_eq.
   assert (Hpos : 0 < length (g_N g)) by (destruct (g_N g); [contradiction | cbn; lia]).
-  assert (P2 : exists a, phase2 NetworkSimplex (ns_params th g) (aux_graph f s g) = Ok a).
+  assert (P2 : exists a, assign_layers NetworkSimplex (ns_params th g) (aux_graph f s g) = Ok a).
   { destruct (Nat.le_gt_cases 2 (length (g_N (aux_graph f s g)))) as [TWO|SMALL].
-    - apply phase2_ns_total_all.
+    - cut (exists a', phase2 NetworkSimplex (ns_params th g) (aux_graph f s g) = Ok a').
+      { intros [a' Ea']. unfold phase2 in Ea'.
+        destruct (assign_layers NetworkSimplex (ns_params th g) (aux_graph f s g)) as [a|er];
+          [eexists; reflexivity|discriminate]. }
+      apply phase2_ns_total_all.
       + apply aux_graph_ns_wf; assumption.
       + apply aux_graph_acyclic; assumption.
       + apply aux_graph_connected; assumption.
       + exact TWO.
       + unfold ns_budget, ns_params. cbn [ns_thoroughness ns_maxiter_factor].
         assert (E : (0 <? Z.of_nat (length (g_N g)))%Z = true) by (apply Z.ltb_lt; lia). rewrite E. exact Hbud.
-    - (* a single auxiliary node: phase 2 skips network simplex *)
+    - (* a single auxiliary node: assign_layers skips network simplex *)
       pose proof (aux_graph_N_len f s g W Hne) as Hk.
       assert (E1 : Nat.eqb (length (g_N (aux_graph f s g))) 1 = true) by (apply Nat.eqb_eq; lia).
-      unfold phase2. rewrite E1. cbn [bind]. apply init_layer_slices_total.
-      intros n _. rewrite (lay0_aux_graph f s g n). lia. }
+      unfold assign_layers. rewrite E1. eexists. reflexivity. }
   destruct P2 as [a E]. rewrite E. cbn [bind]. eexists. reflexivity.
 Qed.
 Print Assumptions exec_ns_positioner_total.
@@ -696,7 +699,7 @@ Proof.
   assert (D : forall e, In e (g_E g1) -> e_delta (gedge g1 e) = 1%Z).
   { intros e He. destruct (s1_edge _ _ _ _ S e He) as (_ & _ & _ & D & _). exact D. }
   destruct (o_p2 o) eqn:EA.
-  - unfold phase2 in P2.
+  - unfold phase2, assign_layers in P2.
     assert (N1 : Nat.eqb (length (g_N g1)) 1 = false) by (apply Nat.eqb_neq; lia). rewrite N1 in P2.
     destruct (exec_longest_path g1) as [g2a|] eqn:E; cbn [bind] in P2; [|discriminate].
     apply (lp_no_empty_band g1 g2a g2 C1 R1 D); try assumption.
